@@ -706,3 +706,272 @@ Proof.
   - apply bindM_ext. intros u s1 _. cbn [write_blocks]. change (zlen (@nil Z) =? 0) with true. reflexivity.
   - rewrite bindM_ret_r. apply write_loop_small; assumption.
 Qed.
+
+Lemma emits_write1 a d : zlen d <= 65527 -> bytes_ok d -> emits (write1 a d) (one_write a d).
+Proof.
+  intros Hd Hb. unfold write1. apply emits_bind_then_quiet; [apply emits_send_write; assumption|].
+  intros ak. repeat qstep.
+Qed.
+
+Lemma emits_get_ctl {B} (f : ctl -> M B) P : (forall c0, good c0 -> emits (f c0) P) -> emits (bindM get_ctl f) P.
+Proof. intros F c w r c' w' G H. unfold bindM, get_ctl in H. cbn [fst] in H. exact (F c G _ _ _ _ _ G H). Qed.
+
+Lemma emits_bind_ret {A B} (x : A) (f : A -> M B) P : emits (f x) P -> emits (bindM (ret x) f) P.
+Proof. intros E. exact E. Qed.
+
+Lemma emits_bind_fail {A B} e (f : A -> M B) (P : outcome B -> list (Z * list Z) -> Prop) :
+  P (Err e) [] -> emits (bindM (fail e) f) P.
+Proof.
+  intros Pe c w r c' w' G H. inversion H; subst. split; [exact G|]. exists []. split; [reflexivity|exact Pe].
+Qed.
+
+(* a register of at most 4 bytes travels in one WriteMem command once the negotiated maximum
+   command length is at least 24 (it is split into several commands below that) *)
+Lemma emits_ctl_write a d : 0 < zlen d <= 4 -> bytes_ok d -> emits (ctl_write a d) (one_write a d).
+Proof.
+  intros Hd Hb. unfold ctl_write.
+  repeat match goal with
+         | |- emits (bindM get_ctl _) _ => fail 1
+         | |- emits (bindM _ _) _ => apply emits_quiet_then; [solve [repeat qstep]|intros ?]
+         end.
+  apply emits_get_ctl. intros c0 [_ G0].
+  destruct d as [|b d'] eqn:Ed; [unfold zlen in Hd; cbn [length] in Hd; lia|]. rewrite <- Ed in *.
+  assert (L : S (length d) = S (S (length d'))) by (rewrite Ed; reflexivity). rewrite L.
+  eapply emits_ext; [intros s; apply write_blocks_small; lia|]. apply emits_write1; [lia|exact Hb].
+Qed.
+
+(* ---- the write sequence of enable_streaming ---------------------------------------------------- *)
+
+Definition img (sirm : Z) (x : Z * Z) : Z * list Z := ((sirm + fst x) mod 2 ^ 64, le_bytes 4 (snd x)).
+
+(* the device log grew by the first n of the intended register writes L; all of them when Ok *)
+Definition pref (sirm : Z) (L : list (Z * Z)) (r : outcome unit) (l : list (Z * list Z)) : Prop :=
+  exists n, (n <= length L)%nat /\ l = firstn n (map (img sirm) L) /\ (r = Ok tt -> n = length L).
+
+Lemma pref_nothing sirm L (r : outcome unit) : r <> Ok tt -> pref sirm L r [].
+Proof. intros N. exists O. split; [lia|]. split; [reflexivity|]. intros E. contradiction. Qed.
+
+Lemma zlen_le4 v : 0 < zlen (le_bytes 4 v) <= 4.
+Proof. rewrite zlen_le_bytes. lia. Qed.
+
+Lemma emits_wstep_ex {X} (x0 : X) sirm off v (rest : M unit) (Lf : X -> list (Z * Z)) :
+  emits rest (fun r l => exists x, pref sirm (Lf x) r l) ->
+  emits (do _ <- write_reg (sirm + off) 4 v; rest) (fun r l => exists x, pref sirm ((off, v) :: Lf x) r l).
+Proof.
+  intros E c w r c' w' G H. unfold bindM in H.
+  destruct (write_reg (sirm + off) 4 v (c, w)) as [[u|e|] [c1 w1]] eqn:Ew;
+    destruct (emits_ctl_write _ _ (zlen_le4 v) (le_bytes_ok 4 v) _ _ _ _ _ G Ew) as [G1 [l1 [W1 P1]]].
+  - destruct P1 as [[_ N]|P1]; [exfalso; exact (N u eq_refl)|]. subst l1.
+    destruct (E _ _ _ _ _ G1 H) as [G2 [l2 [W2 [x [n [Hn [L2 R2]]]]]]].
+    split; [exact G2|]. exists (((sirm + off) mod 2 ^ 64, le_bytes 4 v) :: l2). split.
+    + rewrite W2, W1. cbn [rev]. rewrite <- !app_assoc. reflexivity.
+    + exists x. exists (S n). cbn [length map firstn img fst snd]. split; [lia|]. split; [rewrite L2; reflexivity|].
+      intros Er. rewrite (R2 Er). reflexivity.
+  - inversion H; subst. split; [exact G1|]. exists l1. split; [exact W1|]. exists x0.
+    destruct P1 as [[L1 _]|P1]; subst l1.
+    + apply pref_nothing. discriminate.
+    + exists 1%nat. cbn [length map firstn img fst snd]. split; [lia|]. split; [reflexivity|discriminate].
+  - inversion H; subst. split; [exact G1|]. exists l1. split; [exact W1|]. exists x0.
+    destruct P1 as [[L1 _]|P1]; subst l1.
+    + apply pref_nothing. discriminate.
+    + exists 1%nat. cbn [length map firstn img fst snd]. split; [lia|]. split; [reflexivity|discriminate].
+Qed.
+
+Lemma emits_wstep sirm off v (rest : M unit) L : emits rest (pref sirm L) ->
+  emits (do a <- sirm_reg sirm off; do _ <- write_reg a 4 v; rest) (pref sirm ((off, v) :: L)).
+Proof.
+  intros E. unfold sirm_reg, reg_addr. destruct (sirm + off <? 2 ^ 64).
+  - apply emits_bind_ret.
+    apply emits_weaken with (P := fun r l => exists _ : unit, pref sirm ((off, v) :: L) r l).
+    + apply (emits_wstep_ex tt sirm off v rest (fun _ => L)).
+      eapply emits_weaken; [exact E|]. intros r l P. exists tt. exact P.
+    + intros r l [_ P]. exact P.
+  - apply emits_bind_fail. apply pref_nothing. discriminate.
+Qed.
+
+Lemma emits_last sirm off v : emits (write_reg (sirm + off) 4 v) (pref sirm [(off, v)]).
+Proof.
+  eapply emits_weaken; [apply (emits_ctl_write _ _ (zlen_le4 v) (le_bytes_ok 4 v))|].
+  intros r l [[L N]|L]; subst l.
+  - apply pref_nothing. intros E. exact (N tt E).
+  - exists 1%nat. cbn [length map firstn img fst snd]. split; [lia|]. split; [reflexivity|reflexivity].
+Qed.
+
+Definition plan_regs (p : sirm_plan) : list (Z * Z) :=
+  [(28, sp_size p); (32, sp_count p); (36, sp_final1 p); (40, sp_final2 p); (24, sp_leader p);
+   (44, sp_trailer p); (4, 1)].
+
+Definition plan0 : sirm_plan :=
+  {| sp_size := 0; sp_count := 0; sp_final1 := 0; sp_final2 := 0; sp_leader := 0; sp_trailer := 0 |}.
+
+(* the register writes enable_streaming intends: clear SI_CONTROL when the stream was found
+   enabled, the six size registers, then SI_CONTROL := 1 *)
+Definition intended (dis : bool) (p : sirm_plan) : list (Z * Z) :=
+  (if dis then [(4, 0)] else []) ++ plan_regs p.
+
+Definition enable_spec (r : outcome unit) (l : list (Z * list Z)) : Prop :=
+  exists sirm dis p, pref sirm (intended dis p) r l.
+
+Lemma enable_spec_nothing (r : outcome unit) : r <> Ok tt -> enable_spec r [].
+Proof. intros N. exists 0, false, plan0. apply pref_nothing. exact N. Qed.
+
+Ltac nothing := first [ apply enable_spec_nothing; discriminate | exists plan0; apply pref_nothing; discriminate ].
+Ltac peel := apply emits_bind_quiet;
+  [intros ?e; nothing | nothing
+  |first [apply quiet_reg_addr | apply read_reg_quiet | apply compute_sizes_quiet | apply h_sirm_quiet]
+  |intros ?].
+
+Theorem enable_any : emits ctl_enable_streaming enable_spec.
+Proof.
+  unfold ctl_enable_streaming. peel.
+  match goal with sirm : Z |- _ => rename sirm into sirm0 end.
+  unfold sirm_reg at 1, reg_addr at 1.
+  destruct (sirm0 + 4 <? 2 ^ 64); [apply emits_bind_ret|apply emits_bind_fail; nothing].
+  peel.
+  (* everything after the conditional disable *)
+  match goal with |- emits (bindM _ ?k) _ =>
+    assert (T : emits (k tt) (fun r l => exists p, pref sirm0 (plan_regs p) r l)) end.
+  { cbv beta. unfold sirm_reg. peel. peel.
+    match goal with |- emits (if ?b then _ else _) _ => destruct b end.
+    { intros c w r c' w' G H. inversion H; subst. split; [exact G|]. exists []. split; [reflexivity|]. nothing. }
+    do 7 peel.
+    match goal with p : sirm_plan |- _ =>
+      apply emits_weaken with (P := pref sirm0 (plan_regs p)); [|intros r l P; exists p; exact P] end.
+    unfold plan_regs. fold (sirm_reg sirm0). do 6 apply emits_wstep. apply emits_last. }
+  match goal with |- emits (bindM (if Z.odd ?ctrl then _ else _) _) _ => destruct (Z.odd ctrl) end.
+  - apply emits_weaken with (P := fun r l => exists p, pref sirm0 ((4, 0) :: plan_regs p) r l).
+    + apply (emits_wstep_ex plan0 sirm0 4 0 _ plan_regs). exact T.
+    + intros r l [p P]. exists sirm0, true, p. exact P.
+  - apply emits_bind_ret. eapply emits_weaken; [exact T|]. intros r l [p P]. exists sirm0, false, p. exact P.
+Qed.
+
+(* C15_order, spelled out *)
+Lemma enable_order c w r c' w' : good c -> ctl_enable_streaming (c, w) = (r, (c', w')) ->
+  good c' /\ exists sirm dis p n, (n <= length (intended dis p))%nat /\
+    w_writes w' = rev (firstn n (map (img sirm) (intended dis p))) ++ w_writes w /\
+    (r = Ok tt -> n = length (intended dis p)).
+Proof.
+  intros G H. destruct (enable_any _ _ _ _ _ G H) as [G' [l [W [sirm [dis [p [n [Hn [L R]]]]]]]]].
+  split; [exact G'|]. exists sirm, dis, p, n. subst l. auto.
+Qed.
+
+Definition six (p : sirm_plan) : list (Z * Z) :=
+  [(28, sp_size p); (32, sp_count p); (36, sp_final1 p); (40, sp_final2 p); (24, sp_leader p); (44, sp_trailer p)].
+
+(* after Ok: the newest entry of the device log is SI_CONTROL := 1, below it the six size
+   registers in program order, below them the clearing write when the stream was found enabled *)
+Lemma enable_order_ok c w c' w' : good c -> ctl_enable_streaming (c, w) = (Ok tt, (c', w')) ->
+  exists sirm dis p,
+    w_writes w' = img sirm (4, 1) :: rev (map (img sirm) (six p)) ++
+                  (if dis : bool then [img sirm (4, 0)] else []) ++ w_writes w.
+Proof.
+  intros G H. destruct (enable_order _ _ _ _ _ G H) as [_ [sirm [dis [p [n [_ [W R]]]]]]].
+  exists sirm, dis, p. rewrite W, (R eq_refl), firstn_all2 by (rewrite map_length; lia). unfold intended, plan_regs, six.
+  destruct dis; cbn [app map rev]; rewrite <- ?app_assoc; reflexivity.
+Qed.
+
+(* ================================================================================== *)
+(* Part 3 : failure propagation                                                        *)
+(* ================================================================================== *)
+
+Definition wstep1 (sirm : Z) (x : Z * Z) : M unit := do a <- sirm_reg sirm (fst x); write_reg a 4 (snd x).
+
+Fixpoint write_seq (sirm : Z) (l : list (Z * Z)) : M unit :=
+  match l with
+  | [] => ret tt
+  | x :: r => do _ <- wstep1 sirm x; write_seq sirm r
+  end.
+
+(* enable_streaming with its seven final steps written as a sequence *)
+Definition enable_alt : M unit :=
+  do sirm <- h_sirm;
+  do a_ctrl <- sirm_reg sirm 4;
+  do ctrl <- read_reg a_ctrl 4;
+  do _ <- (if Z.odd ctrl then write_reg a_ctrl 4 0 else ret tt);
+  do a_info <- sirm_reg sirm 0;
+  do info <- read_reg a_info 4;
+  let exp := info / 2 ^ 24 in
+  if 32 <=? exp then fail CE_INVALID_DEVICE else
+  let al := 2 ^ exp in
+  do a <- sirm_reg sirm 16; do req_leader <- read_reg a 4;
+  do a <- sirm_reg sirm 8; do req_payload <- read_reg a 8;
+  do a <- sirm_reg sirm 20; do req_trailer <- read_reg a 4;
+  do p <- compute_sizes al req_leader req_payload req_trailer;
+  write_seq sirm (plan_regs p).
+
+Lemma sirm_reg_ok sirm off s a s' : sirm_reg sirm off s = (Ok a, s') ->
+  a = sirm + off /\ s' = s /\ (sirm + off <? 2 ^ 64) = true.
+Proof.
+  unfold sirm_reg, reg_addr. destruct (sirm + off <? 2 ^ 64); intros H; inversion H; subst; auto.
+Qed.
+
+Lemma enable_as_seq s : ctl_enable_streaming s = enable_alt s.
+Proof.
+  unfold ctl_enable_streaming, enable_alt.
+  apply bindM_ext. intros sirm s1 _. apply bindM_ext. intros a_ctrl s2 E2.
+  apply sirm_reg_ok in E2. destruct E2 as [E2 [_ E3]].
+  do 4 (apply bindM_ext; intros ? ? _).
+  match goal with |- (if ?b then _ else _) _ = _ => destruct b end; [reflexivity|].
+  do 7 (apply bindM_ext; intros ? ? _).
+  unfold plan_regs, write_seq, wstep1. cbn [fst snd].
+  do 6 (rewrite (bindM_assoc (sirm_reg _ _)); apply bindM_ext; intros ? ? _; apply bindM_ext; intros ? ? _).
+  rewrite bindM_ret_r. subst a_ctrl. unfold sirm_reg, reg_addr, bindM. rewrite E3. reflexivity.
+Qed.
+
+(* generic: a failing step ends a sequence with that step's result and state *)
+Lemma write_seq_app_ok sirm pre post s s1 :
+  write_seq sirm pre s = (Ok tt, s1) -> write_seq sirm (pre ++ post) s = write_seq sirm post s1.
+Proof.
+  revert s. induction pre as [|x pre IH]; intros s H; cbn [app write_seq] in *.
+  - inversion H; subst. reflexivity.
+  - unfold bindM in *. destruct (wstep1 sirm x s) as [[u|e|] s0]; [|discriminate|discriminate].
+    apply IH. exact H.
+Qed.
+
+Lemma write_seq_fails_at sirm pre x post s s1 (r1 : outcome unit) s2 :
+  write_seq sirm pre s = (Ok tt, s1) -> wstep1 sirm x s1 = (r1, s2) -> r1 <> Ok tt ->
+  write_seq sirm (pre ++ x :: post) s = (r1, s2).
+Proof.
+  intros Hpre Hx N. rewrite (write_seq_app_ok _ _ _ _ _ Hpre). cbn [write_seq]. unfold bindM. rewrite Hx.
+  destruct r1 as [[]|e|]; [contradiction|reflexivity|reflexivity].
+Qed.
+
+Lemma emits_wstep1 sirm x : emits (wstep1 sirm x) (pref sirm [x]).
+Proof.
+  destruct x as [off v]. unfold wstep1. cbn [fst snd].
+  apply emits_ext with (m' := do a <- sirm_reg sirm off; do _ <- write_reg a 4 v; ret tt).
+  - intros s. apply bindM_ext. intros a s' _. symmetry. apply bindM_ret_r.
+  - apply emits_wstep. intros c w r c' w' G H. inversion H; subst. split; [exact G|]. exists []. split; [reflexivity|].
+    exists O. split; [cbn [length]; lia|]. split; reflexivity.
+Qed.
+
+Lemma write_seq_emits sirm L : emits (write_seq sirm L) (pref sirm L).
+Proof.
+  induction L as [|[off v] L IH]; cbn [write_seq].
+  - intros c w r c' w' G H. inversion H; subst. split; [exact G|]. exists []. split; [reflexivity|].
+    exists O. split; [cbn [length]; lia|]. split; reflexivity.
+  - apply emits_ext with (m' := do a <- sirm_reg sirm off; do _ <- write_reg a 4 v; write_seq sirm L).
+    + intros s. unfold wstep1. cbn [fst snd]. apply bindM_assoc.
+    + apply emits_wstep. exact IH.
+Qed.
+
+(* C15_failure for the write sequence: when the steps before step |pre| are acknowledged and
+   step |pre| fails, the sequence returns that failure, the state is the one the failing step
+   left (no later step runs), and the device log holds exactly the |pre| earlier writes plus at
+   most the failing one *)
+Lemma write_seq_failure sirm pre x post c w c1 w1 (r1 : outcome unit) c2 w2 : good c ->
+  write_seq sirm pre (c, w) = (Ok tt, (c1, w1)) -> wstep1 sirm x (c1, w1) = (r1, (c2, w2)) -> r1 <> Ok tt ->
+  write_seq sirm (pre ++ x :: post) (c, w) = (r1, (c2, w2)) /\
+  exists n, (length pre <= n <= length pre + 1)%nat /\
+    w_writes w2 = rev (firstn n (map (img sirm) (pre ++ x :: post))) ++ w_writes w.
+Proof.
+  intros G Hpre Hx N. split; [exact (write_seq_fails_at _ _ _ post _ _ _ _ Hpre Hx N)|].
+  destruct (write_seq_emits sirm pre _ _ _ _ _ G Hpre) as [G1 [l1 [W1 [n1 [Hn1 [L1 R1]]]]]].
+  destruct (emits_wstep1 sirm x _ _ _ _ _ G1 Hx) as [G2 [l2 [W2 [n2 [Hn2 [L2 _]]]]]].
+  rewrite (R1 eq_refl) in L1. rewrite firstn_all2 in L1 by (rewrite map_length; lia).
+  cbn [length] in Hn2. exists (length pre + n2)%nat. split; [lia|].
+  rewrite W2, W1, L1, L2, map_app. cbn [map].
+  rewrite <- (map_length (img sirm) pre). rewrite firstn_app_2.
+  rewrite rev_app_distr, <- app_assoc.
+  destruct n2 as [|[|n2]]; [reflexivity|reflexivity|lia].
+Qed.
